@@ -84,15 +84,15 @@ type Options struct {
 
 // Env is the world of one run.
 type Env struct {
-	Opt    Options
-	Gen    *simrt.Rand // scenario-level choices made while the run executes
-	Net    *simnet.Net
-	Sched  *simrt.Sched
-	Obs    *Observer
-	Probes map[string]int
-	Fatals []string
-	peers  []erpc.Peer
-	Notes  []string
+	Opt     Options
+	Gen     *simrt.Rand // scenario-level choices made while the run executes
+	Net     *simnet.Net
+	Sched   *simrt.Sched
+	Obs     *Observer
+	Probes  map[string]int
+	Fatals  []string
+	peers   []erpc.Peer
+	Notes   []string
 	OpByTag map[string]*Op
 	// AllowUnknownArgs: handlers may legitimately receive arguments that carry no known tag (hostile/empty bodies)
 	AllowUnknownArgs bool
